@@ -331,6 +331,13 @@ class VFile(object):
             return True
         return len(sess.s2c) > 0 or sess.srv_closed or sess.srv_reset
 
+    def readinto(self, b):
+        # (unbuffered socket file: at most len(b) bytes, 0 at end of stream)
+        data = self.read(len(b))
+        n = len(data)
+        b[:n] = data
+        return n
+
     def read(self, n=-1):
         s = self.sched
         if s.dead:
@@ -497,8 +504,8 @@ class Installed(object):
             net.write_lock = lk
             return lk
 
-        def deque(*a):
-            d = VDeque(*a)
+        def deque(*a, **kw):
+            d = VDeque(*a, **kw)
             d.sched = sched
             return d
         # The stand-ins are installed wherever connection.py reaches the real thing from, whichever way it spells the
